@@ -7,6 +7,7 @@ ENTRY = "c09"
 GROUP = "acct"
 BIN = "vh_c09"
 COQ_TARGETS = ["Properties/C09.vo"]
+SECONDARY = ["c09_vec"]
 
 E_SIGNER = 1001
 E_WRITABLE = 1000
